@@ -324,3 +324,14 @@ func init() {
 		ruleByteAtGuards(c, r, "")
 	}
 }
+
+func init() {
+	debugRules["r6"] = func(c *Ctx, r *Report) {
+		ruleLcLp(c, r, "")
+		ruleLitInit(c, r, "")
+		ruleNilDecoder(c, r, "")
+		ruleReadAdvance(c, r, "")
+		ruleBlockReadOnlySize(c, r, "")
+		ruleFlushFailStop(c, r, "")
+	}
+}
